@@ -201,6 +201,9 @@ class JsonSchemaParser:
     @classmethod
     def get_attname(cls, name: str, excludes: list = None):
         name = re.sub(cls.NON_NAME_REG, '_', name).strip('_')
+        if not name or name[0].isdigit():
+            # an attribute name cannot be empty or start with a digit
+            name = 'field_' + name
         if keyword.iskeyword(name):
             name += '_value'
         if excludes:
@@ -262,8 +265,11 @@ class JsonSchemaParser:
             else:
                 prop_schema = prop
             attname = prop_schema.get('x-var-name') or key
-            if not valid_attr(attname) or attname in attrs or hasattr(dict, attname):
-                attname = self.get_attname(attname, excludes=list(attrs))
+            # names the attribute must not take: attributes of the base class (mapping methods),
+            # attributes taken so far, and the other property names (a field accepts its attname as input)
+            excludes = [*attrs, *[k for k in properties if k != key], *dir(self.object_base_cls)]
+            if not valid_attr(attname) or attname.startswith('_') or attname in excludes:
+                attname = self.get_attname(attname, excludes=excludes)
             alias = None
             if attname != key:
                 alias = key
